@@ -65,7 +65,7 @@ void run_typed(const gen::GGraph &gg, const Json &cs, sim::Chooser &ch, RunResul
             bool threw = false;
             try {
                 ret = call_entry(entry, b.g, wm, k, std::back_inserter(cycles));
-            } catch (const std::runtime_error &) {
+            } catch (const std::exception &) {
                 threw = true;
             }
             // ---- history: call -> return -> the caller inspects what it was handed
@@ -73,7 +73,7 @@ void run_typed(const gen::GGraph &gg, const Json &cs, sim::Chooser &ch, RunResul
             std::vector<std::vector<int>> ids = cycles_to_ids(cycles, b, foreign, stale);
             add_cycle_events(ch, ids);
             if (approx && k == 0) v.k0(threw, ids.size());
-            else if (threw) r.fail("unexpected_exception", "entry point threw std::runtime_error");
+            else if (threw) r.fail("unexpected_exception", "entry point threw on a valid input");
             else v.judge(ids, foreign, stale, (double) ret, approx, k);
             ch.log.add((uint64_t) (int64_t) std::llround(std::ldexp((double) ret, 20)));
         }
@@ -130,7 +130,7 @@ public:
         if (cs.get_str("prop", "") == "C07") {
             // only what C07 itself states: nothing handed back refers to released storage
             std::vector<std::string> keep;
-            for (auto &c : r.classes) if (c == "stale_descriptor") keep.push_back(c);
+            for (auto &c : r.classes) if (c == "stale_descriptor" || c == "unexpected_exception") keep.push_back(c);
             r.classes = keep;
         }
     }
